@@ -38,6 +38,8 @@ pub struct ClusterSetup {
     pub hostname: String,
     pub path: PathRule,
     pub backends: Vec<(String, SocketAddr)>,
+    /// per-frontend header edits
+    pub headers: Vec<sozu_command_lib::proto::command::Header>,
 }
 
 pub fn http_listener(front: SocketAddr) -> HttpListenerConfig {
@@ -60,6 +62,7 @@ pub fn http_state(setup: &HttpSetup) -> ConfigState {
             hostname: c.hostname.clone(),
             path: c.path.clone(),
             position: RulePosition::Tree as i32,
+            headers: c.headers.clone(),
             ..Default::default()
         }));
         for (id, a) in &c.backends {
@@ -85,7 +88,7 @@ pub fn simple_http(front: SocketAddr, back: SocketAddr) -> HttpSetup {
     HttpSetup {
         front,
         listener: http_listener(front),
-        clusters: vec![ClusterSetup { cluster: crate::cfgspace::cluster("c1"), hostname: "a.io".into(), path: PathRule::prefix("/"), backends: vec![("b1".into(), back)] }],
+        clusters: vec![ClusterSetup { cluster: crate::cfgspace::cluster("c1"), hostname: "a.io".into(), path: PathRule::prefix("/"), backends: vec![("b1".into(), back)], headers: vec![] }],
     }
 }
 
